@@ -14,7 +14,7 @@ const INTERESTING: &[&str] = &[
     "int_addsub", "int_mul", "int_floordiv", "int_mod", "true_div", "float_addsub", "float_mul", "float_mod", "float_floordiv", "cmp_mixed",
     "if", "elif", "while", "for_range", "for_list_int", "break", "continue", "reassign", "aug_assign", "shadow", "list_append", "list_set_index",
     "list_index", "list_slice", "str_index", "str_slice", "str_upper", "str_replace", "fstring", "comprehension", "match_enum", "match_option",
-    "match_result", "try_operator", "operator_matrix", "scope_matrix", "method_call", "mut_method_call", "field_set", "dict_get", "dict_set", "call",
+    "match_result", "try_operator", "operator_matrix", "scope_matrix", "lvalue_paths", "method_call", "mut_method_call", "field_set", "dict_get", "dict_set", "call",
 ];
 
 fn nontrivial(c: &Case) -> bool {
@@ -62,6 +62,21 @@ pub fn main(prop: &'static str) {
     // ---- replay of one saved input
     if let Some(path) = &args.replay {
         let text = std::fs::read_to_string(path).unwrap_or_default();
+        if let Some(rel) = serde_json::from_str::<serde_json::Value>(&text).ok().and_then(|v| v["seed_path"].as_str().map(|s| s.to_string())) {
+            let f = crate::repo_root().join(&rel);
+            let src = std::fs::read_to_string(&f).unwrap_or_default();
+            let name = f.file_stem().map(|s| s.to_string_lossy().to_string()).unwrap_or("seed".into());
+            let o = farm.run_one(&Project::single(&name, &src), Mode::CheckBuild);
+            ev.case(Some(util::hash_str(&rel)));
+            ev.nontrivial(1);
+            if o.check.as_ref().is_some_and(|c| c.ok()) && !o.build.as_ref().is_some_and(|b| b.ok()) {
+                let (sig, d) = o.build.as_ref().map(build_signature).unwrap_or_default();
+                out.violation(&mut ev, &format!("seed:{rel}"), "json", &text, &format!("{sig}\n{d}"));
+            } else {
+                println!("replay: seed {rel} builds (or is rejected by the checker)");
+            }
+            std::process::exit(out.finish(&ev));
+        }
         let Some(rp) = parse_replay(&text) else {
             out.inconclusive("replay file is not a C01/C02 replay JSON");
             std::process::exit(out.finish(&ev));
@@ -82,6 +97,9 @@ pub fn main(prop: &'static str) {
 
     // ---- canonical inputs of open known findings
     for e in out.known.open.clone() {
+        if e.key.starts_with("seed:") {
+            continue; // judged in the corpus leg below
+        }
         let text = std::fs::read_to_string(&e.replay).unwrap_or_default();
         if let Some(rp) = parse_replay(&text) {
             let o = farm.run_one(&Project::single("known", &rp.source), Mode::CheckBuildRun);
@@ -94,6 +112,112 @@ pub fn main(prop: &'static str) {
             out.known_replayed(&e.key, still);
         } else {
             println!("note: known finding {} has no readable replay file {}", e.key, e.replay.display());
+        }
+    }
+
+    // ---- regression corpus: canonical inputs of *fixed* findings must keep passing
+    let fixed_dir = crate::verif_root().join("known").join(prop).join("fixed");
+    if let Ok(rd) = std::fs::read_dir(&fixed_dir) {
+        let mut files: Vec<_> = rd.flatten().map(|e| e.path()).filter(|p| p.extension().is_some_and(|e| e == "json")).collect();
+        files.sort();
+        for f in files {
+            let text = std::fs::read_to_string(&f).unwrap_or_default();
+            if let Some(rp) = parse_replay(&text) {
+                let o = farm.run_one(&Project::single("regress", &rp.source), Mode::CheckBuildRun);
+                let exp: Result<Expected, Discard> = rp.expected.clone().ok_or(Discard::Internal("no expectation".into()));
+                let v = classify(&exp, &o);
+                ev.case(Some(util::hash_str(&rp.source)));
+                ev.class("regression_corpus");
+                if let Some((k, d)) = is_violation(prop, &v) {
+                    let name = f.file_stem().map(|s| s.to_string_lossy().to_string()).unwrap_or_default();
+                    out.violation(&mut ev, &format!("regression:{name}:{k}"), "json", &text, &format!("a fixed finding is back\n{d}"));
+                }
+            }
+        }
+    }
+
+    // ---- C02 corpus leg: every repository program (a file with `def main`) that `incan --check` accepts must build.
+    // Failing seeds are known findings keyed by path (`seed:<relative path>`); a seed that stops building is reported.
+    if prop == "C02" && std::env::var("VERIF_NO_SEEDS").is_err() {
+        let root = crate::repo_root();
+        let thorough = args.tier == crate::Tier::Thorough;
+        let mut seeds: Vec<(String, Project)> = Vec::new();
+        for f in util::repo_seed_files() {
+            let Ok(text) = std::fs::read_to_string(&f) else { continue };
+            if !text.lines().any(|l| l.starts_with("def main(") || l.starts_with("async def main(")) {
+                continue;
+            }
+            let heavy = ["async ", "rust::", "@route", "import web", "from web"].iter().any(|k| text.contains(k));
+            if heavy && !thorough {
+                ev.discard("seed_needs_unwarmed_crates(quick)");
+                continue;
+            }
+            let rel = f.strip_prefix(&root).unwrap_or(&f).to_string_lossy().to_string();
+            let parent = f.parent().unwrap_or(&root).to_path_buf();
+            // the project is the seed's directory (so sibling modules resolve), bounded in size
+            let mut files: Vec<(String, String)> = Vec::new();
+            fn walk(base: &std::path::Path, dir: &std::path::Path, out: &mut Vec<(String, String)>) {
+                let Ok(rd) = std::fs::read_dir(dir) else { return };
+                let mut es: Vec<_> = rd.flatten().map(|e| e.path()).collect();
+                es.sort();
+                for p in es {
+                    if out.len() > 60 {
+                        return;
+                    }
+                    if p.is_dir() {
+                        if p.file_name().is_some_and(|n| n == "target" || n == "snapshots") {
+                            continue;
+                        }
+                        walk(base, &p, out);
+                    } else if p.extension().is_some_and(|e| e == "incn" || e == "incan") {
+                        if let Ok(s) = std::fs::read_to_string(&p) {
+                            out.push((p.strip_prefix(base).unwrap_or(&p).to_string_lossy().to_string(), s));
+                        }
+                    }
+                }
+            }
+            walk(&parent, &parent, &mut files);
+            let entry = f.file_name().unwrap().to_string_lossy().to_string();
+            let name = f.file_stem().unwrap().to_string_lossy().to_string();
+            seeds.push((rel, Project { name, files, entry, run_args: vec![] }));
+        }
+        let projects: Vec<Project> = seeds.iter().map(|s| s.1.clone()).collect();
+        let outs = farm.run_many(&projects, Mode::CheckBuild);
+        let list = std::env::var("VERIF_C02_LIST_SEEDS").is_ok();
+        for ((rel, _), o) in seeds.iter().zip(outs.iter()) {
+            let key = format!("seed:{rel}");
+            if let Some(e) = &o.infra_error {
+                out.inconclusive(&format!("{key}: {e}"));
+                continue;
+            }
+            let accepted = o.check.as_ref().is_some_and(|c| c.ok());
+            if !accepted {
+                ev.discard("seed_rejected_by_checker");
+                continue;
+            }
+            ev.case(Some(util::hash_str(rel)));
+            ev.class("seed_program");
+            match &o.build {
+                Some(b) if b.ok() => {
+                    if out.is_known(&key) {
+                        out.known_replayed(&key, false);
+                    }
+                }
+                Some(b) => {
+                    let (sig, detail) = build_signature(b);
+                    if list {
+                        println!("SEED-FAIL\t{rel}\t{sig}");
+                    }
+                    if out.is_known(&key) {
+                        out.known_replayed(&key, true);
+                        ev.exclude(&key);
+                    } else {
+                        let body = serde_json::to_string_pretty(&json!({"seed_path": rel, "signature": sig})).unwrap();
+                        out.violation(&mut ev, &key, "json", &body, &format!("repository program {rel} is accepted by `incan --check` but does not build: {sig}\n{detail}"));
+                    }
+                }
+                None => {}
+            }
         }
     }
 
